@@ -20,7 +20,11 @@ Cases with "mut": 1 MODIFY the network between the calls (kind "mut" / "mut-floa
     ["N", v, x, y]             addNode(Node(v, (x,y)))
     ["O", id, o]               getEdge(id).orientation = o   (generated only when the finding ORI_FROZEN is listed, see classify)
 "late": nodes that the build does not register (no initial edge): they enter the network by an E / N op. The oracle replays
-the modifications on its own copy of the content (`Content`) and judges every query against the content of THAT moment."""
+the modifications on its own copy of the content (`Content`) and judges every query against the content of THAT moment.
+
+Cases with "fam": 1 (kinds fam / fam-ex) are FAMILIES of Network objects that share their Node and Edge objects: "fops" =
+[[k, op], …], op being a call on network k, ["X", s, cut] = nets.append(nets[k].sub_network(s, cut)) (result kept and used).
+`fam_split` turns a family into one "mut" session per network; model, comparison and oracle run per network (see there)."""
 import itertools, os, tempfile
 from fractions import Fraction
 from engine import Prop, fbits, bitsf
@@ -612,7 +616,7 @@ def fam_split(case, reported=None):
     a network that shares an Edge object whose weight was assigned THROUGH ANOTHER network is no longer judged ("blind_from":
     nothing is stated about whether it sees the new weight).
     "skip": indices of run_routing_backward calls made when the routing attributes on the (shared) Node objects were last
-    written by a search of ANOTHER network: nothing is stated about them."""
+    written by a search of ANOTHER network (for the oracle also: by sub_network itself): nothing is stated about them."""
     n = case["n"]
     base = nc.explicit({k: v for k, v in case.items() if k not in ("fops", "fam")})
     base.update(kind="fam-member", mut=1, ops=[])
@@ -646,7 +650,10 @@ def fam_split(case, reported=None):
             s = idx(op[1])
             M["ops"].append(["F", op[1], "-", op[2], 0])
             where.append([(k, len(M["ops"]) - 1)])
-            owner = k
+            # the model side: sub_network is coded as a search on the parent, whose flags a backward pass may read. The
+            # oracle: that sub_network leaves routing attributes on the parent is not part of any statement — a backward
+            # pass right after it is compared with the model, never judged
+            owner = k if reported is None else None
             rec = None
             if reported is not None:
                 rec = reported[nx] if nx < len(reported) else None
